@@ -23,7 +23,8 @@ LEVEL_TEXT = ("Held on every generated function of the run: 1-5 arguments (diffe
 LEVEL_NOTE = "Trusts torch.autograd.functional.jacobian/hessian (create_graph=True) on the same python body; float64; tolerance 1e-10 relative."
 RULE = ("seeded sampling over argument specification (9 layouts) x output shape x function kind x idxs mode x vector batch shape x "
         "differentiated product; groups: jac, hess, subst (cache invalidation), badidx (TypeError), zero_block (structurally zero "
-        "Jacobian/Hessian block); non-trivial = operator has >= 2 entries, a product with non-zero dense reference was compared and "
+        "Jacobian/Hessian block), argdep (arguments that are the same tensor, views of or functions of one another, or also held by the "
+        "object: partial derivative w.r.t. the selected argument as torch.autograd.functional gives it); non-trivial = operator has >= 2 entries, a product with non-zero dense reference was compared and "
         "(for jac/hess/subst groups) a gradient with non-zero reference was compared")
 MIN_NONTRIVIAL = {"quick": 300, "thorough": 3500}
 ASSUMPTIONS = ["float64, CPU; smooth functions tanh(W1 z + c) * sin(W2 z) * s + 0.1 |z|^2 c^2 + const with |W| ~ 0.5 (all mixed second derivatives non-zero)",
@@ -37,12 +38,14 @@ REQUIRED_COUNTERS = {
     "quick": {"operators_checked": 500, "products_compared": 4000, "grad_compared_first": 300, "grad_compared_second": 300,
               "subst_products_compared": 600, "subst_objparam_cases": 60, "subst_grad_compared": 100, "subst_restored_checked": 100,
               "typeerror_cases": 30, "hess_operators": 100, "idxs_none": 50, "idxs_int": 50, "idxs_list": 50, "idxs_tuple": 50,
-              "kind_pure": 80, "kind_nn": 80, "kind_editable": 80, "reevaluations_forced": 300},
+              "kind_pure": 80, "kind_nn": 80, "kind_editable": 80, "reevaluations_forced": 300,
+              "argdep_products_compared": 500, "argdep_subst_compared": 100, "argdep_grad_compared_second": 80},
     "thorough": {"operators_checked": 5000, "products_compared": 40000, "grad_compared_first": 3000, "grad_compared_second": 3000,
                  "subst_products_compared": 6000, "subst_objparam_cases": 600, "subst_grad_compared": 1000,
                  "subst_restored_checked": 1000, "typeerror_cases": 300, "hess_operators": 1000, "idxs_none": 500, "idxs_int": 500,
                  "idxs_list": 500, "idxs_tuple": 500, "kind_pure": 800, "kind_nn": 800, "kind_editable": 800,
-                 "reevaluations_forced": 3000},
+                 "reevaluations_forced": 3000,
+                 "argdep_products_compared": 5000, "argdep_subst_compared": 1000, "argdep_grad_compared_second": 800},
 }
 
 DT = torch.float64
@@ -105,6 +108,8 @@ def cases(seed, tier):
         rng = random.Random(sub_seed(seed, "c17z", i))
         out.append({"group": "zero_block", "seed": sub_seed(seed, "c17zs", i), "variant": ["jac_ignored_arg", "jac_ignored_arg_none",
                     "hess_linear", "hess_ignored_arg", "hess_cross_free"][i % 5], "kind": KINDS[(i // 5) % 3], "vb": rng.randrange(len(VBATCH))})
+    from vf import c17_extra
+    out.extend(c17_extra.cases(seed, tier))
     return out
 
 
@@ -371,6 +376,9 @@ def run_case(desc):
         return run_badidx(desc)
     if g == "zero_block":
         return run_zero(desc)
+    if g == "argdep":
+        from vf import c17_extra
+        return c17_extra.run_case(desc)
     raise HarnessBug("group %s" % g)
 
 
